@@ -16,8 +16,13 @@ class Contract(object):
     def bounded_obligations(self, case):
         """names (post-clause names, or prefixes of engine-generated names such as "raises[IndexError]") of the obligations
         of `case` that are decided by the bounded stand-in only.  Default: bounded_clauses."""
+        if self.native_only:
+            return ("<every clause of this contract>",)
         return tuple(self.bounded_clauses)
 
+    native_only = False      # True: the function is outside the symbolic engine's reach altogether (data-dependent helpers,
+                             # numpy.ma ...).  No symbolic pass is made; EVERY clause is decided by the bounded stand-in (native
+                             # enumeration), reported as bounded and never counted as discharged.
     chain_post = False       # True: a post clause discharged on a path is available as a fact to the LATER clauses of
                              # that path (lemma first, corollaries after).  Sound: it is only added once proved, under
                              # the same assumptions.  Never applies to canaries or to clauses that were not discharged.
